@@ -394,6 +394,18 @@ class TR:
 
 
 @labtech.task
+class TA__w:
+    """A type whose name contains the separator used inside cache keys."""
+    ident: int
+    tag: str
+    deps: Any = ()
+    opt: Any = None
+
+    def run(self):
+        return _run(self)
+
+
+@labtech.task
 class TZ:
     """Its result is None."""
     ident: int
@@ -433,7 +445,7 @@ def _late_types():
 
 
 TYPES = {
-    'TA': TA, 'TB': TB, 'TC': TC, 'TD': TD, 'TN': TN, 'TN1': TN1, 'TN2': TN2, 'TF': TF, 'TP': TP, 'TR': TR, 'TZ': TZ,
+    'TA': TA, 'TB': TB, 'TC': TC, 'TD': TD, 'TN': TN, 'TN1': TN1, 'TN2': TN2, 'TF': TF, 'TP': TP, 'TR': TR, 'TZ': TZ, 'TW': TA__w,
     'Node': Node, 'NodeX': NodeX,
 }
 
@@ -449,7 +461,7 @@ def get_type(name: str):
 TYPE_INFO = {
     # name: (max_parallel, cache kind)
     'TA': (None, 'pickle'), 'TB': (1, 'pickle'), 'TC': (2, 'pickle'), 'TD': (3, 'json'),
-    'TN': (None, None), 'TN1': (1, None), 'TN2': (2, None), 'TF': (3, 'pickle'), 'TP': (2, 'pickle'), 'TR': (None, 'pickle'), 'TZ': (None, 'pickle'),
+    'TN': (None, None), 'TN1': (1, None), 'TN2': (2, None), 'TF': (3, 'pickle'), 'TP': (2, 'pickle'), 'TR': (None, 'pickle'), 'TZ': (None, 'pickle'), 'TW': (None, 'pickle'),
     'Node': (None, 'pickle'), 'NodeX': (None, 'pickle'), 'TA2': (None, 'pickle'),
 }
 
@@ -457,7 +469,7 @@ TYPE_QUALNAME = {
     'TA': 'simlab.tasklib.TA', 'TB': 'simlab.tasklib.TB', 'TC': 'simlab.tasklib.TC',
     'TD': 'simlab.tasklib.TD', 'TN': 'simlab.tasklib.TN', 'TN1': 'simlab.tasklib.TN1',
     'TP': 'simlab.tasklib.TP', 'TR': 'simlab.tasklib.TR', 'TN2': 'simlab.tasklib.TN2', 'TF': 'simlab.tasklib.TF', 'Node': 'simlab.tasklib.Node', 'NodeX': 'simlab.tasklib.NodeX',
-    'TA2': 'simlab.tasklib2.TA', 'TZ': 'simlab.tasklib.TZ',
+    'TA2': 'simlab.tasklib2.TA', 'TZ': 'simlab.tasklib.TZ', 'TW': 'simlab.tasklib.TA__w',
 }
 
 
